@@ -1,0 +1,42 @@
+//! Verification hooks (feature `verif`, off by default).
+//!
+//! Nothing here changes the behaviour of the library: [`tick`] is a no-op
+//! unless a monitor has armed a step budget on the current thread.
+
+use std::cell::Cell;
+
+thread_local! {
+    static BUDGET: Cell<Option<u64>> = const { Cell::new(None) };
+    static USED: Cell<u64> = const { Cell::new(0) };
+}
+
+/// Arms a logical step budget for the current thread.
+pub fn arm(budget: u64) {
+    USED.with(|u| u.set(0));
+    BUDGET.with(|b| b.set(Some(budget)));
+}
+
+/// Disarms the budget and returns the number of steps counted since [`arm`].
+pub fn disarm() -> u64 {
+    BUDGET.with(|b| b.set(None));
+    USED.with(|u| u.get())
+}
+
+/// Counts one iteration of a progress-critical loop. Panics when the armed
+/// budget is exceeded, so that a loop that stops making progress is observed
+/// as a deterministic failure instead of a hang.
+#[inline]
+pub(crate) fn tick(site: &'static str) {
+    let Some(budget) = BUDGET.with(|b| b.get()) else {
+        return;
+    };
+    let used = USED.with(|u| {
+        let n = u.get() + 1;
+        u.set(n);
+        n
+    });
+    if used > budget {
+        BUDGET.with(|b| b.set(None));
+        panic!("verif: fuel exhausted at {site} after {used} steps");
+    }
+}
